@@ -13,6 +13,10 @@ pub(crate) use portgraph::is_connected;
 pub use test::gen_portgraph_connected;
 
 pub(crate) use toposort::{online_toposort, OnlineToposort};
+#[cfg(feature = "verif")]
+pub use toposort::{
+    online_toposort as verif_online_toposort, OnlineToposort as VerifOnlineToposort,
+};
 
 /// Sort a vector and return a vector of pairs of the original value and its position.
 #[allow(dead_code)]
